@@ -28,12 +28,18 @@ def rstr(rng, maxlen, ws=True, hash_ok=True):
 class Renderer:
     """Renders a logical document; every layout freedom is an independent coin of the layout RNG."""
 
-    def __init__(self, seed, freedoms=None):
+    def __init__(self, seed, freedoms=None, force=None):
         self.L = random.Random(seed)
         self.used = set()
         self.only = freedoms
+        self.force = force or {}      # layout decisions fixed by the caller (e.g. one line-end convention for a series of files)
+        self.blocks = {}              # the lines written for the enum definitions / the struct definitions
 
     def coin(self, name, p):
+        if name in self.force:
+            if self.force[name]:
+                self.used.add(name)
+            return self.force[name]
         if self.only is not None and name not in self.only:
             return False
         r = self.L.random() < p
@@ -109,9 +115,12 @@ class Renderer:
             return self.L.choice(['{}', '{ }'])
         return self.L.choice(['{{}}', '{ { } }', '{{ }}', '{ {}}'])
 
-    def render(self, doc):
+    def render(self, doc, shared=None):
+        """shared: {'enums': [lines], 'structs': [lines]} - definition blocks to be written verbatim (the definitions of
+        another file of the same kind, character for character) instead of being laid out afresh."""
         L = self.L
         out = []
+        shared = shared or {}
 
         def junk():
             if self.coin('blank_and_comment_lines', 0.5):
@@ -131,7 +140,8 @@ class Renderer:
                 line += L.choice([' ', '\t', '  '])
             out.append(line)
             junk()
-        for en, labs in doc['enums'].items():
+        mark = len(out)
+        for en, labs in ([] if 'enums' in shared else doc['enums'].items()):
             name = en if not self.coin('typedef_name_case', 0.3) else L.choice([en.lower(), en.capitalize()])
             # enum type names are matched literally by the member declarations: keep the declared spelling
             name = en
@@ -143,8 +153,11 @@ class Renderer:
                     out.append(self.ws() + l + (',' if i < len(labs) - 1 else ''))
                 out.append('}' + self.ws() + name + ';')
             junk()
+        out.extend(shared.get('enums', []))
+        self.blocks['enums'] = out[mark:]
+        mark = len(out)
         order = list(range(len(doc['tables'])))
-        for ti in order:
+        for ti in ([] if 'structs' in shared else order):
             t = doc['tables'][ti]
             tn = t['name']
             if self.coin('typedef_name_case', 0.4):
@@ -169,6 +182,8 @@ class Renderer:
                 tail += self.cws() + self.comment(True)
             out.append(tail)
             junk()
+        out.extend(shared.get('structs', []))
+        self.blocks['structs'] = out[mark:]
         queues = {ti: list(t['rows']) for ti, t in enumerate(doc['tables'])}
         interleave = self.coin('interleaved_tables', 0.6) and len(doc['tables']) > 1
         seq = []
@@ -237,13 +252,19 @@ class C02(Check):
             'brace-wrapped strings, four spellings of the empty string, [n] vs <n>, letter case of structure names on '
             'rows and typedefs, interleaved tables, alternative number spellings, padded arrays, with/without #%yanny and '
             'final newline), read from a path, a text file object or a binary file object, normal and raw mode.  Extra '
-            'classes: structure names that are substrings of each other / equal to column names / one letter; sequences of documents that reuse structure and column names with other declarations, read one after another in one process.  '
+            'classes: structure names that are substrings of each other / equal to column names / one letter; sequences of documents that reuse structure and column names with other declarations, read one after another in one process; '
+            'series of files of one kind (definition text identical character for character, each file with its own rows and its own '
+            'longest strings in the char[] columns; variants: other labels in the enum of the same name, two structures with one member '
+            'list, one path rewritten, earlier objects looked at again after the later reads).  The accessor dtype() is compared with the '
+            'document\'s column types on every read.  '
             'Non-trivial: >=2 layout freedoms active and >=1 row; distinct by (document, rendering) hash.')
     ASSUMPTIONS = ['typedef members are written one per line as "type name[dims];" (C style, as every SDSS file does); '
                    'comments inside typedef bodies contain no ; { } and not the word typedef',
                    'brace-wrapped strings carry no #, ", } and no edge blanks; pair values carry no #, quotes, edge blanks or {{}}',
                    'char[] columns have at least one non-empty value; a comment never ends with a backslash']
-    REQUIRED_COUNTERS = ('same_names_other_types_reads', 'renderings_parsed', 'raw_mode_parses', 'binary_mode_parses', 'crlf_renderings',
+    REQUIRED_COUNTERS = ('same_definitions_other_longest_value_reads_normal_mode', 'same_struct_text_other_enum_labels_reads',
+                         'same_path_rewritten_reads', 'twin_structure_documents', 'earlier_objects_looked_at_again', 'dtype_accessor_calls',
+                         'same_names_other_types_reads', 'renderings_parsed', 'raw_mode_parses', 'binary_mode_parses', 'crlf_renderings',
                          'continuation_renderings', 'continuation_without_blank_or_indentation_renderings', 'interleaved_renderings', 'hostile_comment_renderings',
                          'metamorphic_pairs', 'char_var_columns', 'enum_columns')
 
@@ -259,9 +280,53 @@ class C02(Check):
     def budget(self, tier):
         k = 1 if tier == 'quick' else 100
         return {'random_docs': 1500 * k, 'structname_torture': 400 * k, 'single_freedom': 600 * k,
-                'typedef_in_comment': 20 * k, 'name_reuse': 150 * k, 'format_words': 200 * k}
+                'typedef_in_comment': 20 * k, 'name_reuse': 150 * k, 'format_words': 200 * k, 'same_kind_files': 250 * k}
 
     # ------------------------------------------------------------------ gen
+    def gen_rows(self, rng, cols, enums, p_words=0.12):
+        """Rows for the declared columns (the draws are made in the same order as when this was part of gen_doc)."""
+        rows = []
+        nrows = rng.randint(1, 5) if p_words <= 0.5 else rng.randint(3, 8)
+        if rng.random() < 0.12 and not any(c['type'] == 'char' and c['clen'] == -1 for c in cols):
+            nrows = 0            # a structure that is declared but has no data rows (array columns included)
+        for r in range(nrows):
+            row = []
+            for c in cols:
+                def one(in_array):
+                    typ = c['type']
+                    if typ in INTB:
+                        b = INTB[typ]
+                        return rng.choice([0, 1, -1, 2**b - 1, -2**b, rng.randint(-2**b, 2**b - 1), rng.randint(-99, 99)])
+                    if typ in ('float', 'double'):
+                        v = rng.choice([0.0, 1.5, -2.25, 1e10, 1e-10, rng.uniform(-1e3, 1e3), 3.0, -7.0, 0.125,
+                                        float('nan'), float('inf'), float('-inf'), rng.gauss(0, 1) * 10**rng.randint(-20, 20)])
+                        return float(np.float32(v)) if typ == 'float' else v
+                    if typ == 'char':
+                        s = rstr(rng, c['clen'] if c['clen'] > 0 else 10)
+                        if rng.random() < p_words:
+                            # the format's own vocabulary as cell text (F-Y7, F-Y8): just text inside a data row
+                            s = rng.choice(M.FORMAT_WORDS)
+                            if c['clen'] > 0:
+                                s = s[:c['clen']]
+                        if in_array:
+                            s = s.replace('}', ')')
+                        return s
+                    return rng.choice(enums[typ])
+                row.append([one(True) for _ in range(c['alen'])] if c['alen'] else one(False))
+            rows.append(row)
+        # char[] columns need one non-empty value; a scalar string in the last column must not end in a backslash
+        for ci, c in enumerate(cols):
+            if c['type'] == 'char' and c['clen'] == -1 and not c['alen'] and all(len(r[ci]) == 0 for r in rows):
+                rows[0][ci] = 'v'
+            if c['type'] == 'char' and c['clen'] == -1 and c['alen'] and all(len(x) == 0 for r in rows for x in r[ci]):
+                rows[0][ci][0] = 'v'
+        if cols[-1]['type'] == 'char' and not cols[-1]['alen']:
+            for r in rows:
+                r[-1] = r[-1].rstrip('\\')
+            if cols[-1]['clen'] == -1 and all(len(r[-1]) == 0 for r in rows):
+                rows[0][-1] = 'v'
+        return rows
+
     def gen_doc(self, rng, torture=False, like=None, p_words=0.12):
         """like: another document whose structure names and column names are reused (with freshly drawn types)."""
         ntab = rng.randint(1, 3) if like is None else len(like['tables'])
@@ -330,46 +395,7 @@ class C02(Check):
                         c['type'], c['clen'] = 'char', 24
                     if c['type'] == 'char' and c['clen'] > 0:
                         c['clen'] = 24
-            rows = []
-            nrows = rng.randint(1, 5) if p_words <= 0.5 else rng.randint(3, 8)
-            if rng.random() < 0.12 and not any(c['type'] == 'char' and c['clen'] == -1 for c in cols):
-                nrows = 0            # a structure that is declared but has no data rows (array columns included)
-            for r in range(nrows):
-                row = []
-                for c in cols:
-                    def one(in_array):
-                        typ = c['type']
-                        if typ in INTB:
-                            b = INTB[typ]
-                            return rng.choice([0, 1, -1, 2**b - 1, -2**b, rng.randint(-2**b, 2**b - 1), rng.randint(-99, 99)])
-                        if typ in ('float', 'double'):
-                            v = rng.choice([0.0, 1.5, -2.25, 1e10, 1e-10, rng.uniform(-1e3, 1e3), 3.0, -7.0, 0.125,
-                                            float('nan'), float('inf'), float('-inf'), rng.gauss(0, 1) * 10**rng.randint(-20, 20)])
-                            return float(np.float32(v)) if typ == 'float' else v
-                        if typ == 'char':
-                            s = rstr(rng, c['clen'] if c['clen'] > 0 else 10)
-                            if rng.random() < p_words:
-                                # the format's own vocabulary as cell text (F-Y7, F-Y8): just text inside a data row
-                                s = rng.choice(M.FORMAT_WORDS)
-                                if c['clen'] > 0:
-                                    s = s[:c['clen']]
-                            if in_array:
-                                s = s.replace('}', ')')
-                            return s
-                        return rng.choice(enums[typ])
-                    row.append([one(True) for _ in range(c['alen'])] if c['alen'] else one(False))
-                rows.append(row)
-            # char[] columns need one non-empty value; a scalar string in the last column must not end in a backslash
-            for ci, c in enumerate(cols):
-                if c['type'] == 'char' and c['clen'] == -1 and not c['alen'] and all(len(r[ci]) == 0 for r in rows):
-                    rows[0][ci] = 'v'
-                if c['type'] == 'char' and c['clen'] == -1 and c['alen'] and all(len(x) == 0 for r in rows for x in r[ci]):
-                    rows[0][ci][0] = 'v'
-            if cols[-1]['type'] == 'char' and not cols[-1]['alen']:
-                for r in rows:
-                    r[-1] = r[-1].rstrip('\\')
-                if cols[-1]['clen'] == -1 and all(len(r[-1]) == 0 for r in rows):
-                    rows[0][-1] = 'v'
+            rows = self.gen_rows(rng, cols, enums, p_words)
             tables.append({'name': nm, 'cols': cols, 'rows': rows})
         if torture and like is None and len(tables) >= 2 and rng.random() < 0.4:
             # structure names A and A_X, with a column X_c in A and a column c in A_X of another declared type: every identifier
@@ -412,7 +438,107 @@ class C02(Check):
                 'comment_line_in_typedef', 'interleaved_tables', 'row_name_case', 'padded_arrays', 'leading_blanks',
                 'crlf', 'no_final_newline', 'blank_and_comment_lines', 'brace_strings']
 
+    SAFE = 'abcXYZ019_-+.:/'
+
+    def impose_widths(self, rng, doc, prev):
+        """Makes the longest value of every char[] / char[n][] column of `doc` a freshly drawn length, different from the one the
+        same column has in `prev` (another file of the same kind)."""
+        for ti, t in enumerate(doc['tables']):
+            for ci, c in enumerate(t['cols']):
+                if not (c['type'] == 'char' and c['clen'] == -1):
+                    continue
+                before = None
+                if prev is not None:
+                    before = max(len(x) for r in prev['tables'][ti]['rows'] for x in (r[ci] if c['alen'] else [r[ci]]))
+                W = rng.choice([w for w in range(1, 15) if w != before])
+                for r in t['rows']:
+                    if c['alen']:
+                        r[ci] = [x[:W] for x in r[ci]]
+                    else:
+                        r[ci] = r[ci][:W]
+                        if ci == len(t['cols']) - 1:
+                            r[ci] = r[ci].rstrip('\\')
+                word = ''.join(rng.choice(self.SAFE) for _ in range(W))
+                r = rng.choice(t['rows'])
+                if c['alen']:
+                    r[ci][rng.randrange(c['alen'])] = word
+                else:
+                    r[ci] = word
+
+    @staticmethod
+    def widths_differing(doc, prev):
+        """number of char[] / char[n][] columns whose longest value in `doc` has another length than in `prev`"""
+        n = 0
+        for t, tp in zip(doc['tables'], prev['tables']):
+            for ci, c in enumerate(t['cols']):
+                if c['type'] == 'char' and c['clen'] == -1:
+                    w = [max(len(x) for r in tt['rows'] for x in (r[ci] if c['alen'] else [r[ci]])) for tt in (t, tp)]
+                    n += w[0] != w[1]
+        return n
+
+    def gen_same_kind(self, cls, rng):
+        """Files of one kind, as a pipeline reads them one after another in one process: the definitions are the same text character
+        for character (written by the same program), the data are each file's own - other rows, another number of rows, other
+        longest strings in the char[] columns.  Variants: the enum of the same name has other labels (another software version)
+        while the struct text stays; two structures of one file have the same member list; every file of the series is written
+        to the same path; the objects read first stay alive and are looked at again after the later reads."""
+        a = self.gen_doc(rng)
+        # at least one column of open length (identifiers drawn by the model never hold a q or a z)
+        if not any(c['type'] == 'char' and c['clen'] == -1 for t in a['tables'] for c in t['cols']):
+            t = rng.choice(a['tables'])
+            col = {'name': 'zq' + M.ident(rng, 1, 4, suffix=False), 'type': 'char', 'alen': rng.choice([0, 0, 2, 3]), 'clen': -1}
+            t['cols'].insert(rng.randrange(len(t['cols']) + 1), col)
+            t['rows'] = self.gen_rows(rng, t['cols'], a['enums'])
+        twin = len(a['tables']) >= 2 and rng.random() < 0.3
+        if twin:
+            # two structures with the same member list (PLUGMAPOBJ / PLUGMAPOBJ_OLD): each is sized by its own rows
+            a['tables'][1]['cols'] = [dict(c) for c in a['tables'][0]['cols']]
+            a['tables'][1]['rows'] = self.gen_rows(rng, a['tables'][1]['cols'], a['enums'])
+        self.impose_widths(rng, a, None)
+        other_enum = bool(a['enums']) and rng.random() < 0.3
+        docs = [a]
+        for k in range(rng.randint(1, 3)):
+            prev = docs[-1]
+            d = {'pairs': [[key, (v if rng.random() < 0.5 else rstr(rng, 12, ws=False, hash_ok=False).replace('{', '(') or 'v')]
+                           for key, v in a['pairs']],
+                 'enums': {en: list(labs) for en, labs in prev['enums'].items()}, 'tables': []}
+            if other_enum:
+                for en in d['enums']:
+                    # same enum name, other labels, and the longest label has another length
+                    before = max(len(x) for x in d['enums'][en])
+                    W = rng.choice([w for w in range(2, 12) if w != before])
+                    labs = [M.ident(rng, 1, min(5, W - 1), suffix=False).upper() + str(j) for j in range(rng.randint(1, 4))]
+                    labs[rng.randrange(len(labs))] = 'L' * (W - 1) + '9'
+                    d['enums'][en] = labs
+            for t in a['tables']:
+                cols = [dict(c) for c in t['cols']]
+                rows = self.gen_rows(rng, cols, d['enums'])      # (never empty when a column has open length)
+                d['tables'].append({'name': t['name'], 'cols': cols, 'rows': rows})
+            self.impose_widths(rng, d, prev)
+            docs.append(d)
+        if rng.random() < 0.5:
+            # ... and the first file once more at the end (its own widths again)
+            docs.append(a)
+        differ = [self.widths_differing(d, p) for p, d in zip(docs, docs[1:])]
+        crlf = rng.random() < 0.25
+        same_path = rng.random() < 0.3
+        seq = []
+        shared = {}
+        for k, d in enumerate(docs):
+            R = Renderer(rng.getrandbits(32), None, {'crlf': crlf})
+            text = R.render(d, shared)
+            if k == 0:
+                shared = {'structs': R.blocks['structs']}
+                if not other_enum:
+                    shared['enums'] = R.blocks['enums']
+            seq.append({'doc': d, 'text': text, 'freedoms': sorted(R.used),
+                        'mode': 'path' if same_path else rng.choice(['path', 'path', 'text', 'binary', 'text_nl']),
+                        'raw': rng.random() < 0.2, 'open_length_columns_differing': 0 if k == 0 else differ[k - 1]})
+        return {'kind': cls, 'sequence': seq, 'same_path': same_path, 'other_enum': other_enum, 'twin_structures': twin}
+
     def gen(self, cls, rng, i):
+        if cls == 'same_kind_files':
+            return self.gen_same_kind(cls, rng)
         if cls == 'name_reuse':
             # several documents read one after another in the same process that reuse structure and column names with
             # different declarations (files of the same kind from different software versions): nothing may leak from one
@@ -463,9 +589,9 @@ class C02(Check):
     def expected(self, doc):
         return doc
 
-    def parse(self, r):
+    def parse(self, r, fn=None):
         self._n += 1
-        fn = os.path.join(self.workdir, 'c02_%d.par' % self._n)
+        fn = fn or os.path.join(self.workdir, 'c02_%d.par' % self._n)
         data = r['text'].encode('ascii')
         with open(fn, 'wb') as f:
             f.write(data)
@@ -482,6 +608,22 @@ class C02(Check):
                 return self.Y.yanny(f, raw=r['raw'])
         finally:
             os.remove(fn)
+
+    @staticmethod
+    def model_dtype(doc, t):
+        dt = []
+        for ci, c in enumerate(t['cols']):
+            typ = c['type']
+            if typ in NPT:
+                base = NPT[typ]
+            elif typ == 'char' and c['clen'] > 0:
+                base = 'S%d' % c['clen']
+            elif typ == 'char':
+                base = 'S%d' % max(len(x) for r in t['rows'] for x in (r[ci] if c['alen'] else [r[ci]]))
+            else:
+                base = 'S%d' % max(len(x) for x in doc['enums'][typ])
+            dt.append((c['name'], base, (c['alen'],)) if c['alen'] else (c['name'], base))
+        return np.dtype(dt)
 
     @staticmethod
     def same_float(a, b):
@@ -507,6 +649,16 @@ class C02(Check):
             if not out.expect(y.size(nm) == len(t['rows']), 'rows', '%s:%s row count %d != %d' % (where, nm, y.size(nm), len(t['rows']))):
                 continue
             tab = y[nm]
+            if t['rows'] or not any(c['type'] == 'char' and c['clen'] == -1 for c in t['cols']):
+                # the accessor dtype(): the column types of *this* document (declared types; char[] by this document's longest value;
+                # enums by this document's longest label), in normal and in raw mode alike
+                want = self.model_dtype(doc, t)
+                try:
+                    got = y.dtype(nm)
+                except Exception as e:       # noqa
+                    got = '%s: %s' % (type(e).__name__, e)
+                out.expect(isinstance(got, np.dtype) and got == want, 'dtype-accessor', '%s: dtype(%r) is %r, the document needs %r' % (where, nm, got, want))
+                out.count('dtype_accessor_calls')
             for ci, c in enumerate(t['cols']):
                 typ = c['type']
                 isenum = typ in doc['enums']
@@ -556,7 +708,35 @@ class C02(Check):
                         out.expect(len(gg) == len(e) and all(self.same_float(a, b) for a, b in zip(gg, e)), 'cell-float',
                                    '%s:%s.%s[%d] got %r expected %r' % (where, nm, c['name'], ri, gg, e))
 
+    def run_same_kind(self, case, out):
+        seq = case['sequence']
+        fn = os.path.join(self.workdir, 'c02_series_%d.par' % self._n) if case['same_path'] else None
+        alive = []
+        for k, d in enumerate(seq):
+            where = 'file%d-of-series[%s%s]' % (k, d['mode'], ',raw' if d['raw'] else '')
+            y = self.parse(d, fn)
+            self.compare(out, y, d['doc'], d['raw'], where)
+            alive.append((y, d, where))
+            out.count('renderings_parsed')
+            out.count('raw_mode_parses', d['raw'])
+            out.count('binary_mode_parses', d['mode'] == 'binary')
+            if k and d['open_length_columns_differing']:
+                # the deciding situation: definitions already seen in this process, data that size the char[] columns otherwise
+                out.count('same_definitions_other_longest_value_reads')
+                out.count('same_definitions_other_longest_value_reads_normal_mode', not d['raw'])
+            out.count('same_struct_text_other_enum_labels_reads', bool(k) and case['other_enum'])
+            out.count('same_path_rewritten_reads', bool(k) and case['same_path'])
+        out.count('twin_structure_documents', case['twin_structures'])
+        # the objects read earlier are still the documents they were read from
+        for y, d, where in alive[:-1]:
+            self.compare(out, y, d['doc'], d['raw'], where + '-looked-at-again-after-the-later-reads')
+            out.count('earlier_objects_looked_at_again')
+        out.nontrivial = any(len(d['freedoms']) >= 2 for d in seq) and any(t['rows'] for d in seq for t in d['doc']['tables'])
+        out.info['freedoms'] = [d['freedoms'] for d in seq]
+
     def run(self, case, out):
+        if case['kind'] == 'same_kind_files':
+            return self.run_same_kind(case, out)
         if case['kind'] == 'name_reuse':
             for k, d in enumerate(case['sequence']):
                 r = {'text': d['text'], 'mode': d['mode'], 'raw': d['raw'], 'freedoms': []}
@@ -612,7 +792,7 @@ class C02(Check):
         out.info['freedoms'] = [r['freedoms'] for r in case['renderings']]
 
     def summarise(self, case):
-        if case['kind'] == 'name_reuse':
+        if case['kind'] in ('name_reuse', 'same_kind_files'):
             return {'kind': case['kind'], 'texts': [d['text'][:500] for d in case['sequence']]}
         return {'kind': case['kind'], 'doc_tables': [(t['name'], [(c['name'], c['type'], c['alen'], c['clen']) for c in t['cols']], t['rows'][:2])
                                                      for t in case['doc']['tables'][:2]],
